@@ -14,14 +14,30 @@ open Wp Wp.Stacking Wp.Gen Wp.C17
 def gridCtx : Node :=
   .ctx (.node { plain 1 .GridBox with opacity := 1 / 2 } []) [] [] [] [] [] [] 0
 
-/-- Known finding `context-root-loses-decoration`: the unrestricted paint-once statement fails — the
-background of box 1 is due once and painted zero times (`GridBox` is not in the tuple of point 2). -/
-theorem paint_once_fails_for_grid_root :
-    cntBg 1 (paint true gridCtx {}) = 0 ∧ (expBg gridCtx).count 1 = 1 := by
-  constructor
+/-- Regression (was the witness `paint_once_fails_for_grid_root` of finding
+`context-root-loses-decoration`, grid half, repaired by a9887a3: `GridContainerBox` joined the tuple
+of point 2): the background of the grid container that roots a context is due once and painted once,
+inside the container's own opacity group. -/
+theorem paint_once_holds_for_grid_root :
+    cntBg 1 (paint true gridCtx {}) = 1 ∧ (expBg gridCtx).count 1 = 1 ∧
+    paint true gridCtx {} =
+      [.paint .bg 1 4 { alphas := [1 / 2], transforms := [], clips := [.bgBoxes .bg 1, .bgArea .bg 1] }] := by
+  refine ⟨?_, ?_, ?_⟩
   · simp [gridCtx, paint, paintBodyWith, plain, Kind.drawOwnDecoration, Kind.drawInline, paintList,
-      point7With, point7List, lastIsLine, Kind.drawReplaced, outlineList, ownOutline, inlKids]
+      point7With, point7List, lastIsLine, Kind.drawReplaced, outlineList, ownOutline, inlKids, decoration,
+      drawBackground, drawBorder, cntBg, isBg]
   · simp [gridCtx, expBg, expBgL, bgOf, plain]
+  · have h : ((1 : Rat) / 2 < 1) := by decide +kernel
+    simp [gridCtx, paint, paintBodyWith, plain, Kind.drawOwnDecoration, Kind.drawInline, paintList,
+      point7With, point7List, lastIsLine, Kind.drawReplaced, outlineList, ownOutline, inlKids, decoration,
+      drawBackground, drawBorder, ctxEnv, Env.clip, h]
+
+/-- The repaired class is inside the hypothesis of `paint_once_partial` now: every grid container class
+is painted by point 2 (`rootPainted`), so the theorem covers grid roots. -/
+theorem grid_roots_painted :
+    rootPainted (plain 1 .GridBox) ∧ rootPainted (plain 1 .InlineGridBox) ∧
+    rootPainted (plain 1 .GridContainerBox) := by
+  refine ⟨?_, ?_, ?_⟩ <;> simp [rootPainted, plain, Kind.drawOwnDecoration, Kind.drawInline]
 
 /-- `<tr style="position:relative; background:…"><td style="background:…">` : a table row rooting a
 (fake) context, with its cell. -/
@@ -29,7 +45,9 @@ def rowCtx : Node :=
   .ctx (.node { plain 1 .TableRowBox with positioned := true }
       [.node (plain 2 .TableCellBox) []]) [] [] [] [] [] [.node (plain 2 .TableCellBox) []] 0
 
-/-- Same finding for table parts: neither the row's nor its cell's background is painted. -/
+/-- Known finding `context-root-loses-decoration` (what is left of it: table parts): the unrestricted
+paint-once statement fails — neither the row's nor its cell's background is painted (`TableRowBox` is not
+in the tuple of point 2 and `draw_table` does not reach a row that left the table's tree). -/
 theorem paint_once_fails_for_row_root :
     cntBg 1 (paint true rowCtx {}) = 0 ∧ cntBg 2 (paint true rowCtx {}) = 0 ∧
     (expBg rowCtx).count 1 = 1 ∧ (expBg rowCtx).count 2 = 1 := by
